@@ -30,7 +30,7 @@ ASSUMPTIONS = [
     'files <= 64 kB',
 ]
 PROBES = ['two_readers_interleaved', 'span_ge3_vr', 'seg16', 'pad_ge4', 'zero_payload', 'chk_and_trail', 'vr20', 'vr16384', 'seq_with_zero',
-          'maxlen_with_zero', 'encrypted', 'pad_ge100', 'second_pass', 'history_before_scan', 'iterator_created_before_history', 'reader_reentered', 'file_object_with_foreign_fileno']
+          'maxlen_with_zero', 'encrypted', 'pad_ge100', 'second_pass', 'history_before_scan', 'iterator_created_before_history', 'reader_reentered', 'file_object_with_foreign_fileno', 'file_object_not_at_start']
 
 File = None
 
@@ -45,6 +45,8 @@ def generate(seed, tier):
     rng = seeds.Rng(seed)
     model = D.gen_model(rng)
     sc = {'world': 'dlis_phys', 'model': model, 'passes': 2 if rng.chance(0.3) else 1}
+    if rng.chance(0.12):
+        sc['start_offset'] = rng.pick(['end', 'end', 1, 20, 80, 84, 200])
     if rng.chance(0.1):
         sc['foreign_fileno'] = True      # a file object whose fileno() is not the stream it delivers (gzip.open() and the like)
     if rng.chance(0.3):
@@ -226,6 +228,10 @@ def execute(scenario):
     res.shape = shape_of(model)
     clock = EventClock()
     f = SimFile(by, clock, foreign_fileno=bool(scenario.get('foreign_fileno')))
+    if scenario.get('start_offset') is not None:
+        # the caller has used the file object before: it is not at the start (just written, or its first bytes inspected)
+        f.seek(len(by) if scenario['start_offset'] == 'end' else min(scenario['start_offset'], len(by)))
+        res.probe('file_object_not_at_start')
     if scenario.get('foreign_fileno'):
         res.probe('file_object_with_foreign_fileno')
     res.op('open')
